@@ -17,3 +17,6 @@ open UtilModel UtilModel.CContainer
 #print axioms UtilModel.C15_accepted
 #print axioms UtilModel.acceptsH_sound
 #print axioms UtilModel.complete_ccontainer
+#print axioms UtilModel.quotok_ccontainer
+#print axioms UtilModel.reject_sound_ccontainer
+#print axioms UtilModel.rejectH_sound_quot
